@@ -115,7 +115,13 @@ class SphinxInventory:
         Parse clear text payload and return a dict with module to link mapping.
         """
         result = {}
-        for line in payload.splitlines():
+        # The lines of an inventory end with a line feed: str.splitlines() would also cut 
+        # a line at the form feeds, separators... that its free-text columns may contain.
+        lines = payload.split('\n')
+        if lines[-1] == '':
+            lines.pop()
+        for line in lines:
+            line = line.rstrip('\r')
             try:
                 name, typ, prio, location, display = _parseInventoryLine(line)
             except ValueError:
